@@ -642,6 +642,104 @@ impl Phase for ManyNames {
     }
 }
 
+/// contexts built by the two macros are ordinary contexts: same observable state as the model built by hand, and
+/// every operation continues to behave from there
+struct MacroBuilt {
+    ops: Vec<Op>,
+}
+
+impl Phase for MacroBuilt {
+    fn name(&self) -> String {
+        "contexts built by context_map! / math_consts_context! x every operation".into()
+    }
+    fn len(&self) -> u64 {
+        3 * self.ops.len() as u64
+    }
+    fn exhaustive(&self) -> bool {
+        true
+    }
+    fn run(&mut self, idx: u64, _r: &mut Rng, out: &mut Out) {
+        use evalexpr::{context_map, math_consts_context};
+        let which = idx as usize / self.ops.len();
+        let op = self.ops[idx as usize % self.ops.len()].clone();
+        out.begin(|| format!("macro-built context #{} then {}", which, op.show()));
+        let mut model = Model::new();
+        let built: Result<Ctx, EvalexprError> = match which {
+            0 => {
+                model.vars.insert("a".into(), RV::Int(5));
+                model.vars.insert("b".into(), RV::Float(2.5));
+                model.vars.insert("s".into(), RV::Str("str".into()));
+                model.vars.insert("t".into(), RV::Bool(true));
+                model.funs.insert("f".into(), FnModel::Identity);
+                context_map! {
+                    "a" => int 5,
+                    "b" => float 2.5,
+                    "s" => "str",
+                    "t" => true,
+                    "f" => Function::new(|v| Ok(v.clone())),
+                }
+            },
+            1 => {
+                // a type-changing rebinding inside the macro is an error, like anywhere else
+                let r: Result<Ctx, EvalexprError> = context_map! { "a" => int 1, "a" => float 2.0 };
+                if r.is_ok() {
+                    out.violation("context/context_map", "context_map! { \"a\" => int 1, \"a\" => float 2.0 }".into(), "an expected-type error".into(), "Ok(context)".into());
+                }
+                model.vars.insert("a".into(), RV::Int(1));
+                model.vars.insert("b".into(), RV::Int(2));
+                context_map! { "a" => int 1, "b" => int 2 }
+            },
+            _ => {
+                for (k, v) in [
+                    ("PI", std::f64::consts::PI),
+                    ("TAU", std::f64::consts::TAU),
+                    ("E", std::f64::consts::E),
+                    ("SQRT_2", std::f64::consts::SQRT_2),
+                    ("LN_2", std::f64::consts::LN_2),
+                    ("LN_10", std::f64::consts::LN_10),
+                    ("FRAC_PI_2", std::f64::consts::FRAC_PI_2),
+                    ("FRAC_PI_3", std::f64::consts::FRAC_PI_3),
+                    ("FRAC_PI_4", std::f64::consts::FRAC_PI_4),
+                    ("FRAC_PI_6", std::f64::consts::FRAC_PI_6),
+                    ("FRAC_PI_8", std::f64::consts::FRAC_PI_8),
+                    ("FRAC_1_PI", std::f64::consts::FRAC_1_PI),
+                    ("FRAC_2_PI", std::f64::consts::FRAC_2_PI),
+                    ("FRAC_2_SQRT_PI", std::f64::consts::FRAC_2_SQRT_PI),
+                    ("FRAC_1_SQRT_2", std::f64::consts::FRAC_1_SQRT_2),
+                    ("LOG2_10", std::f64::consts::LOG2_10),
+                    ("LOG2_E", std::f64::consts::LOG2_E),
+                    ("LOG10_2", std::f64::consts::LOG10_2),
+                    ("LOG10_E", std::f64::consts::LOG10_E),
+                ] {
+                    model.vars.insert(k.to_string(), RV::Float(v));
+                }
+                math_consts_context!()
+            },
+        };
+        let ctx = match built {
+            Ok(c) => c,
+            Err(e) => {
+                out.violation("context/macro-failed", format!("macro-built context #{}", which), "Ok(context)".into(), format!("{:?}", e));
+                return;
+            },
+        };
+        let mut live = Live { ctx, model };
+        let names = ["a", "b", "s", "t", "PI", "E", "LN_2"];
+        let mut reports: Vec<(String, String, String)> = Vec::new();
+        {
+            let mut rep = |ru: &str, e: String, o: String| reports.push((ru.to_string(), e, o));
+            check_state(&live, &names, &mut rep);
+            let _ = apply(&op, &mut live, &mut rep);
+            check_state(&live, &names, &mut rep);
+        }
+        out.evals(3);
+        out.nontrivial(&format!("macro {} {}", which, op.show()));
+        for (rule, e, o) in reports.into_iter().take(2) {
+            out.violation(&format!("context/{}", rule), format!("context built by {} then {}", ["context_map!", "context_map! (ints)", "math_consts_context!"][which], op.show()), e, o);
+        }
+    }
+}
+
 pub fn selfcheck() -> Result<String, String> {
     // the README's type-safety history through the model
     let mut m = Model::new();
@@ -668,6 +766,9 @@ pub fn phases(cfg: &Cfg) -> Vec<Box<dyn Phase>> {
         }),
         Box::new(ManyNames {
             n: cfg.n(400, 12_000),
+        }),
+        Box::new(MacroBuilt {
+            ops: all_ops(&["a", "b"]),
         }),
     ]
 }
